@@ -299,11 +299,11 @@ Qed.
 Lemma rejection_is43x r : rejection_msg r -> exists m, r = [m] /\ is43x m = true.
 Proof. intros [code [a [E H]]]. exists (INum code a). split; [exact E|]. destruct H as [H|[H|H]]; subst code; reflexivity. Qed.
 
-(* the bot answers a nick rejection with a NICK as long as an alternate is left; nothing else changes *)
-Lemma step_rejection c na s n m : is43x m = true -> after s = false -> (1 <= alts n)%nat ->
-  stepN c na (s, n) m = ((s, Nk (pred (alts n)) (tried n)), [Send s_NICK []], None).
+(* the bot answers every nick rejection with a NICK (an alternate, then random variants: always a new nick); nothing else changes *)
+Lemma step_rejection c na s n m : is43x m = true -> after s = false ->
+  stepN c na (s, n) m = ((s, fst (next_nick n)), [Send s_NICK []], None).
 Proof.
-  intros Hm Ha Hn. unfold stepN. rewrite Hm, Ha. unfold next_nick. destruct (alts n) as [|a]; [lia|]. reflexivity.
+  intros Hm Ha. unfold stepN. rewrite Hm, Ha. unfold next_nick. destruct (alts n) as [|a]; reflexivity.
 Qed.
 
 (* ====================================================================== *)
@@ -391,7 +391,7 @@ Qed.
 
 (* the lifted invariant: J = rounds still needed *)
 Definition InvN (J : nat) (s : st) (n : nk) (b : list outev) (t : sst) : Prop :=
-  after s = false /\ (rej t <= alts n)%nat /\
+  after s = false /\
   ((due t = false /\ exists j b0, (if bad t then BaseP j s b0 else BaseS j s b0) /\
       b = (if bad t then [Send s_NICK []] else []) ++ b0 /\ J = (j + rej t)%nat) \/
    (due t = true /\ bad t = true /\ b = [Send s_NICK []] /\ pre3 s /\ J = rej t)).
@@ -401,10 +401,10 @@ Definition Goal (J : nat) (t' : sst) (r : (st * nk) * list outev) : Prop :=
 
 (* the server holds no rejected nick while it answers b0 *)
 Lemma plain_round j s n b0 rm t' : after s = false -> BaseS j s b0 -> answers_batch cap b0 rm ->
-  bad t' = false -> due t' = false -> (rej t' <= alts n)%nat ->
+  bad t' = false -> due t' = false ->
   Goal (j + rej t') t' (run_msgsN c na (s, n) rm).
 Proof.
-  intros Ha Hb Hans Hbad Hdue Hrej. unfold Goal.
+  intros Ha Hb Hans Hbad Hdue. unfold Goal.
   destruct (runN_st c na rm (batch_no43x cap b0 rm Hans) s n) as [E1 E2].
   destruct (classify j s b0 Hb) as [Hnt|[Hp3 [_ [Hw _]]]].
   - pose proof (runN_plain c na rm (batch_plain cap b0 Hnt rm Hans) s n Ha) as Hpl. cbv zeta in Hpl.
@@ -412,21 +412,20 @@ Proof.
     destruct (run_msgsN c na (s, n) rm) as [[s' n'] o']. destruct (run_msgs c s rm) as [s'' o'']. cbn [fst snd] in *. subst s'' o''.
     destruct Hpl as [Ha' Hn]. destruct Hbase as [H|[H|[j' [Hj H]]]]; [left; exact H|right; left; exact H|].
     destruct Hn as [Hn|Hn]; [left; exact Hn|]. subst n'. right. right. exists (j' + rej t')%nat. split; [lia|].
-    split; [exact Ha'|]. split; [exact Hrej|]. left. split; [exact Hdue|]. exists j', o'. rewrite Hbad. split; [apply BaseP_S; exact H|]. split; reflexivity.
+    split; [exact Ha'|]. left. split; [exact Hdue|]. exists j', o'. rewrite Hbad. split; [apply BaseP_S; exact H|]. split; reflexivity.
   - pose proof (welcome_run c rm (Hw rm Hans) s Hp3) as H.
     destruct (run_msgsN c na (s, n) rm) as [[s' n'] o']. destruct (run_msgs c s rm) as [s'' o'']. cbn [fst snd] in *. subst s'' o''.
     destruct H as [H|H]; [left|right; left]; exact H.
 Qed.
 
 (* the server rejects the nick (r0) and answers b0 while holding the rejected nick *)
-Lemma bad_round j s n b0 r0 rm t' : after s = false -> BaseS j s b0 -> (1 <= alts n)%nat -> rejection_msg r0 ->
-  answers_batch cap (filter (nt cap) b0) rm -> bad t' = true -> (S (rej t') <= alts n)%nat -> due t' = existsb (is_trigger cap) b0 ->
+Lemma bad_round j s n b0 r0 rm t' : after s = false -> BaseS j s b0 -> rejection_msg r0 ->
+  answers_batch cap (filter (nt cap) b0) rm -> bad t' = true -> due t' = existsb (is_trigger cap) b0 ->
   Goal (j + rej t' + 1) t' (run_msgsN c na (s, n) (r0 ++ rm)).
 Proof.
-  intros Ha Hb Hn Hr0 Hans Hbad Hrej Hdue. unfold Goal.
-  destruct (rejection_is43x r0 Hr0) as [m [E Hm]]. subst r0. cbn [app run_msgsN]. rewrite (step_rejection c na s n m Hm Ha Hn).
-  set (n1 := Nk (pred (alts n)) (tried n)).
-  assert (Hn1 : (rej t' <= alts n1)%nat) by (unfold n1; cbn [alts]; lia).
+  intros Ha Hb Hr0 Hans Hbad Hdue. unfold Goal.
+  destruct (rejection_is43x r0 Hr0) as [m [E Hm]]. subst r0. cbn [app run_msgsN]. rewrite (step_rejection c na s n m Hm Ha).
+  set (n1 := fst (next_nick n)).
   destruct (classify j s b0 Hb) as [Hnt|[Hp3 [Hex [_ Hsil]]]].
   - assert (Ef : filter (nt cap) b0 = b0).
     { apply filter_all. eapply Forall_impl; [|exact Hnt]. intros o Ho. unfold nt. rewrite Ho. reflexivity. }
@@ -442,9 +441,9 @@ Proof.
     + left. apply aborted_app_r. exact H.
     + right. left. exact H.
     + destruct Hn' as [Hn'|Hn']; [left; apply aborted_app_r; exact Hn'|]. subst n'. right. right. exists (j' + rej t')%nat. split; [lia|].
-      split; [exact Ha'|]. split; [exact Hn1|]. left. split; [exact Hd|]. exists j', o'. rewrite Hbad. split; [exact H|]. split; reflexivity.
+      split; [exact Ha'|]. left. split; [exact Hd|]. exists j', o'. rewrite Hbad. split; [exact H|]. split; reflexivity.
   - rewrite (Hsil rm Hans). cbn [run_msgsN fst snd app]. right. right. exists (rej t'). split; [lia|].
-    split; [exact Ha|]. split; [exact Hn1|]. right. rewrite Hdue, Hex. repeat split; assumption.
+    split; [exact Ha|]. right. rewrite Hdue, Hex. repeat split; assumption.
 Qed.
 End Lift.
 
@@ -467,7 +466,7 @@ Qed.
 Lemma lift_round J s n b t resp t' : InvN c cap J s n b t -> roundR cap t b resp t' ->
   Goal c cap J t' (run_msgsN c na (s, n) resp).
 Proof.
-  intros [Ha [Hrej Hcase]] [fr [r0 [t0 [rm [Hpre [Hbatch Eresp]]]]]]. subst resp.
+  intros [Ha Hcase] [fr [r0 [t0 [rm [Hpre [Hbatch Eresp]]]]]]. subst resp.
   destruct Hcase as [[Hdue [j [b0 [Hbase [Eb EJ]]]]]|[Hdue [Hbad [Eb [Hp3 EJ]]]]].
   - (* the registration is in progress *)
     destruct Hpre as [[Efr [Er0 Et0]]|[Efr [Hbad0 [Hpos [Hr0 Et0]]]]]; subst fr t0.
@@ -485,7 +484,7 @@ Proof.
         -- (* accepted *)
            rewrite Hdue in Hr1. subst r. cbn [app].
            destruct (BN_plain cap false (Sst (rej t) false false) b0 rs t' eq_refl Hr) as [Hans Et']. subst t'. cbn [rej] in *.
-           pose proof (plain_round c Hok na cap j s n b0 rs (Sst (rej t) false false) Ha (BaseP_S c cap j s b0 Hbase) Hans eq_refl eq_refl Hrej) as G.
+           pose proof (plain_round c Hok na cap j s n b0 rs (Sst (rej t) false false) Ha (BaseP_S c cap j s b0 Hbase) Hans eq_refl eq_refl) as G.
            unfold Goal in *. cbn [rej] in G. destruct G as [G|[G|[J' [HJ G]]]]; [left; exact G|right; left; exact G|right; right; exists J'; split; [lia|exact G]].
       * (* plain *)
         subst b. cbn [app] in Hbatch. destruct (BN_plain cap false _ _ _ _ Hbad Hbatch) as [Hans Et']. subst t'.
@@ -505,9 +504,9 @@ Proof.
     unfold answersN in H1. cbn [is_nick_out] in H1. change (seq_eqb s_NICK s_NICK) with true in H1. rewrite Hbad in H1. cbn [orb negb] in H1.
     destruct H1 as [[Hr1 [Hpos Et2]]|[Et2 Hr1]]; subst t'.
     + (* rejected again *)
-      destruct (rejection_is43x r Hr1) as [m [E Hm]]. subst r. cbn [run_msgsN]. rewrite (step_rejection c na s n m Hm Ha) by lia.
+      destruct (rejection_is43x r Hr1) as [m [E Hm]]. subst r. cbn [run_msgsN]. rewrite (step_rejection c na s n m Hm Ha).
       cbn [fst snd app]. right. right. exists (pred (rej t)). split; [lia|].
-      unfold InvN. cbn [fst snd rej alts due bad]. split; [exact Ha|]. split; [lia|]. right. repeat split; assumption.
+      unfold InvN. cbn [fst snd rej alts due bad]. split; [exact Ha|]. right. repeat split; assumption.
     + (* accepted: the welcome burst *)
       rewrite Hdue in Hr1. destruct (runN_st c na r (welcome_no43x r Hr1) s n) as [E1 E2].
       pose proof (welcome_run c r Hr1 s Hp3) as H. unfold Goal.
@@ -533,21 +532,20 @@ Proof.
 Qed.
 End Lift2.
 
-(* the liveness clause against servers that reject the nick at most K times, K <= the configured alternates:
-   2 * |mechanisms| + 3 + K rounds *)
-Theorem liveness_nick c na K sigma : cfg_ok c -> conformantN K sigma -> (K <= na)%nat ->
+(* the liveness clause against servers that reject the nick at most K times: 2 * |mechanisms| + 3 + K rounds *)
+Theorem liveness_nick c na K sigma : cfg_ok c -> conformantN K sigma ->
   exists k, (k <= 2 * length (c_mechs c) + 3 + K)%nat /\ finishedN (gameN c na sigma k).
 Proof.
-  intros Hok [cap [tau [Hinit Htau]]] HK. unfold gameN.
+  intros Hok [cap [tau [Hinit Htau]]]. unfold gameN.
   assert (Hst : after (start c) = false).
   { unfold start, reset, queue_connect, fresh, send, emit, transition. cbn [zombie]. destruct (c_password c); reflexivity. }
   destruct cap.
   - destruct (reachN c Hok na true sigma tau Htau (2 * MM c + 2 + K)%nat (start c) (Nk na false) (init_outs c) []) as [k [Hk Hf]].
-    + rewrite Hinit. split; [exact Hst|]. split; [exact HK|]. left. split; [reflexivity|].
+    + rewrite Hinit. split; [exact Hst|]. left. split; [reflexivity|].
       exists (2 * MM c + 2)%nat, (init_outs c). cbn [bad rej app]. split; [left; repeat split|]. split; reflexivity.
     + exists k. split; [unfold MM in Hk; lia|exact Hf].
   - destruct (reachN c Hok na false sigma tau Htau (0 + K)%nat (start c) (Nk na false) (init_outs c) []) as [k [Hk Hf]].
-    + rewrite Hinit. split; [exact Hst|]. split; [exact HK|]. left. split; [reflexivity|].
+    + rewrite Hinit. split; [exact Hst|]. left. split; [reflexivity|].
       exists 0%nat, (init_outs c). cbn [bad rej app]. split; [repeat split|]. split; reflexivity.
     + exists k. split; [lia|exact Hf].
 Qed.
@@ -612,11 +610,9 @@ Example liveness_nick_witnesses :
   connectedN_in cfg_nosasl 2 (strategyN (Srv false [] true) [0%nat] 2 (repeat 1 40)) 3 = true.
 Proof. vm_compute. repeat split. Qed.
 
-(* finding C08.F26: one rejection more than there are alternates: the third candidate is the configured nick itself,
-   do43x raises, no NICK is sent; the server is waiting for one and the bot for the welcome burst: the game stops moving *)
-Example liveness_nick_stuck :
-  let sigma := strategyN srv_all [0%nat] 3 (repeat 1 40) in
-  let g := gameN (cfg_plain true) 2 sigma 4 in
-  fsm (fst (fst g)) = WAIT_MOTD /\ snd (fst g) = Nk 0 true /\ existsb (existsb is_abort) (snd g) = false /\ sigma (snd g) = [] /\
-  gameN (cfg_plain true) 2 sigma 8 = (fst g, [] :: [] :: [] :: [] :: snd g).
+(* the old witness of finding C08.F26 (fixed): 2 alternates, 3 rejections: the third candidate is a random variant,
+   the NICK is sent, the withheld welcome burst follows: CONNECTED; and 5 rejections in a row after CAP END *)
+Example liveness_nick_beyond_alternates :
+  connectedN_in (cfg_plain true) 2 (strategyN srv_all [0%nat] 3 (repeat 1 40)) 5 = true /\
+  connectedN_in cfg_nosasl 2 (strategyN srv_all [2%nat] 5 (repeat 1 60)) 8 = true.
 Proof. vm_compute. repeat split. Qed.
